@@ -143,7 +143,7 @@ def model_class(m, cmd):
                 return ['exc', 'Internal', y[1][1]]
             return ['exc', name]
     if cmd == 'verify':
-        v = res[0]
+        v = res[-1]         # (the find_timestamp before it has succeeded)
         return ['exit', 0 if v[1][0] == 1 else 1]
     return ['exit', 0]
 
@@ -188,7 +188,8 @@ def gen_case(r):
         if not discoverable(target):
             target = ''
         c.argv = ['verify'] + (['-k'] if keep else []) + ['@' + target]
-        c.ops = [['verify', target, 1 if keep else 0, []]]
+        # (the command asks for the timestamp first: that loads the Manifests beside the top-level one)
+        c.ops = [['find_timestamp'], ['verify', target, 1 if keep else 0, []]]
         c.allow_create = False
     elif kind in ('update', 'update-sub'):
         target = sub if kind == 'update-sub' else ''
